@@ -23,6 +23,7 @@ ORD = "core::cmp::Ordering"
 DISCR = {"Less": 255, "Equal": 0, "Greater": 1}
 VARIANT = {"Less": 0, "Equal": 1, "Greater": 2}
 CMP_RE = re.compile(r"core::cmp::impls::<impl core::cmp::Ord for (u8|u16|u32|u64|usize|char)>::cmp")
+STRUCT_CMP_RE = re.compile(r"<core::(result::Result<T, E>|option::Option<T>) as core::cmp::Ord>::cmp|core::tuple::<impl core::cmp::Ord for \(.*\)>::cmp")
 WIDEN_RE = re.compile(r"core::convert::num::<impl core::convert::From<(u8|u16|u32|char)> for (u16|u32|u64|usize|u128|i16|i32|i64|isize)>::from")
 
 
@@ -105,6 +106,26 @@ class OrdInterp(TabInterp):
                 return DISCR[v.vname]
         return TabInterp.rvalue(self, st, rv, dest_place)
 
+    def struct_cmp(self, st, x, y, depth):
+        if depth > 4:
+            raise Undecided("comparison of deeply nested values")
+        x, y = self._deref(st, x), self._deref(st, y)
+        if isinstance(x, Adt) and isinstance(y, Adt) and x.path == y.path and x.path in ("core::result::Result", "core::option::Option"):
+            if x.variant != y.variant:
+                return "lt" if x.variant < y.variant else "gt"
+            fx, fy = x.fields, y.fields
+        elif isinstance(x, Tup) and isinstance(y, Tup) and len(x.fields) == len(y.fields):
+            fx, fy = x.fields, y.fields
+        elif isinstance(x, (Adt, Tup)) or isinstance(y, (Adt, Tup)):
+            raise Undecided("comparison of unlike structured values")
+        else:
+            return self.sym_cmp(x, y)
+        for a, b in zip(fx, fy):
+            o = self.struct_cmp(st, a, b, depth + 1)
+            if o != "eq":
+                return o
+        return "eq"
+
     def _deref(self, st, v):
         for _ in range(4):
             if isinstance(v, Ref):
@@ -131,6 +152,15 @@ class OrdInterp(TabInterp):
             y = self._deref(st, self.operand(st, t["args"][1]))
             o = self.sym_cmp(x, y)
             return ordering({"lt": "Less", "eq": "Equal", "gt": "Greater"}[o])
+        if STRUCT_CMP_RE.fullmatch(c):
+            # derived / library Ord of Result, Option and tuples: variant first (Ok < Err, None < Some), then the payloads left to right
+            x = self._deref(st, self.operand(st, t["args"][0]))
+            y = self._deref(st, self.operand(st, t["args"][1]))
+            return ordering({"lt": "Less", "eq": "Equal", "gt": "Greater"}[self.struct_cmp(st, x, y, 0)])
+        if c in ("core::result::Result::<T, E>::is_ok", "core::result::Result::<T, E>::is_err", "core::option::Option::<T>::is_some", "core::option::Option::<T>::is_none"):
+            v = self._deref(st, self.operand(st, t["args"][0]))
+            if isinstance(v, Adt) and v.vname in ("Ok", "Err", "Some", "None"):
+                return 1 if {"is_ok": v.vname == "Ok", "is_err": v.vname == "Err", "is_some": v.vname == "Some", "is_none": v.vname == "None"}[c.rsplit("::", 1)[1]] else 0
         if WIDEN_RE.fullmatch(c) or c == "core::convert::From::from":
             v = self.operand(st, t["args"][0])
             if isinstance(v, SymV):
@@ -209,3 +239,28 @@ def check(prog, cmp_path, toid_path, sigid_path, id_range=(0, 255)):
             probs[label].append("positions %s, bands %s, attributes %s: cmp returns %s, expected %s" % (
                 rel["id"] if scen["rec"]["l"] and scen["rec"]["r"] else "-", rel["band"], rel["attr"], got, want))
     return probs, runs
+
+
+def check_is_valid(prog, path, toid_path, sigid_path, by_ref):
+    """is_valid(s) evaluated for a recognised and an unrecognised descriptor: (True | False, detail); raises Undecided"""
+    f = prog.fn(path)
+    out = []
+    for rec, want in ((True, 1), (False, 0)):
+        scen = {"rec": {"l": rec, "r": rec}, "rel": {"id": "eq", "band": "eq", "attr": "eq"}}
+        it = OrdInterp(prog, f, toid_path, scen)
+        st = State()
+        st.locals[-10] = Adt(sigid_path, 0, None, [SymV("band_l", 0, 255), SymV("attr_l", 0, 0x10FFFF)])
+        st.locals[1] = Ref(("local", -10, (), st.frame)) if by_ref else st.locals[-10]
+        try:
+            r = it.run_fn(st)
+        except (Undecided, Panic):
+            raise
+        except Exception as e:
+            raise Undecided("internal: %r" % (e,))
+        if isinstance(r, BV):
+            r = r.concrete()
+        if r not in (0, 1, True, False):
+            raise Undecided("is_valid returns an unmodelled value")
+        if int(r) != want:
+            out.append("is_valid answers %s for a descriptor to_id %s" % (bool(r), "recognises" if rec else "does not recognise"))
+    return (not out), "; ".join(out) or "evaluated for a recognised and for an unrecognised descriptor [Y-sem]"
